@@ -306,6 +306,29 @@ Definition bond_order (m : mol) (i : nat) : Z :=
   let nar := Z.of_nat (List.length (filter (fun b => match snd b with Aromatic => true | _ => false end) bs)) in
   if (0 <? nar)%Z then (order + nar + 1)%Z else order.
 
+(* the phosphate branch of Mol2Atom.formal_charge (doubled): -1 for the first
+   bond-order-1 oxygen found walking the bonds of the P atom of this atom's
+   first bond, else 0; None = IndexError / ValueError (no P in the first bond) *)
+Definition phosphate_rule (m : mol) (i : nat) : option Z :=
+  match atom_bonds m i with
+  | [] => None
+  | b0 :: _ =>
+      let a1 := fst (fst b0) in
+      let a2 := snd (fst b0) in
+      let p := if first_char (m_ty m a1) =? "P" then Some a1
+               else if first_char (m_ty m a2) =? "P" then Some a2 else None in
+      match p with
+      | None => None
+      | Some p =>
+          let isO1 := fun a => (first_char (m_ty m a) =? "O") && (bond_order m a =? 1)%Z in
+          let o_atoms := flat_map (fun b => filter isO1 [fst (fst b); snd (fst b)]) (atom_bonds m p) in
+          match o_atoms with
+          | [] => None
+          | o :: _ => Some (if (o =? i)%nat then (-2)%Z else 0%Z)
+          end
+      end
+  end.
+
 (* Mol2Atom.formal_charge, doubled; None = an exception (KeyError for an
    unknown element/type, ValueError when the phosphate rule finds no P) *)
 Definition formal_charge2 (m : mol) (i : nat) : option Z :=
@@ -320,27 +343,7 @@ Definition formal_charge2 (m : mol) (i : nat) : option Z :=
       else if (t =? "O.co2") && (bo =? 1)%Z && negb (fc =? -1)%Z then Some (-1)%Z
       else if (t =? "C.2") && (bo =? 5)%Z && (fc =? -2)%Z then Some 0%Z
       else if (t =? "N.3") && (bo =? 4)%Z && (fc =? -2)%Z then Some 2%Z
-      else if (t =? "O.3") && (bo =? 1)%Z && (fc =? 2)%Z then
-        (* phosphate rule: -1 for the first bond-order-1 oxygen found walking
-           the bonds of the P atom of this atom's first bond, else 0 *)
-        match atom_bonds m i with
-        | [] => None
-        | b0 :: _ =>
-            let a1 := fst (fst b0) in
-            let a2 := snd (fst b0) in
-            let p := if first_char (m_ty m a1) =? "P" then Some a1
-                     else if first_char (m_ty m a2) =? "P" then Some a2 else None in
-            match p with
-            | None => None
-            | Some p =>
-                let isO1 := fun a => (first_char (m_ty m a) =? "O") && (bond_order m a =? 1)%Z in
-                let o_atoms := flat_map (fun b => filter isO1 [fst (fst b); snd (fst b)]) (atom_bonds m p) in
-                match o_atoms with
-                | [] => None
-                | o :: _ => Some (if (o =? i)%nat then (-2)%Z else 0%Z)
-                end
-            end
-        end
+      else if (t =? "O.3") && (bo =? 1)%Z && (fc =? 2)%Z then phosphate_rule m i
       else Some fc
   | _, _ => None
   end.
